@@ -105,6 +105,8 @@ status_t ReaderWriterMutex :: LockReadWriteAux(uint64 optTimeoutTimestamp) const
          // tricky case:  we already have read-only access and we want to upgrade to read/write access
          // but there are other read-only threads executing so we need to Wait() until they are done
          // To avoid potential deadlocks, I'm going to just release all of our read-only locks and then re-lock everything
+         if (optTimeoutTimestamp == 0) return B_TIMED_OUT;  // other threads are executing, so an immediate upgrade can't succeed:  fail now, before we give up the read-only locks that we might then have to block to get back
+
          const uint32 readOnlyRecurseCount = ts->_readOnlyRecurseCount;
          mg.UnlockEarly();
 
